@@ -815,6 +815,8 @@ func c01Cases(r *core.Run, prop string) []XZWCase {
 		add(XZWCase{Cfg: XZCfg{DictCap: 4096, Check: 1}, Shape: []Seg{{K: "R", Seed: 74, N: n}}})
 	}
 	add(XZWCase{Cfg: XZCfg{DictCap: 4096, BlockSize: 1, Check: 1}, Shape: []Seg{{K: "T", Seed: 75, N: 16385}}}) // 16385 records
+	// 131200 one-byte blocks: the index passes 256 KiB, so the backward size in the footer needs its third byte
+	add(XZWCase{Cfg: XZCfg{DictCap: 4096, BlockSize: 1, Check: 1}, Shape: []Seg{{K: "T", Seed: 76, N: 131200}}})
 	// (q) property sets the .xz format forbids (lc+lp > 4): if the library accepts such a
 	// configuration, what it emits is still judged as an .xz file
 	for _, pr := range [][3]int{{4, 1, 0}, {3, 2, 2}, {2, 3, 1}, {1, 4, 4}, {4, 4, 4}} {
